@@ -809,6 +809,11 @@ ExitStatus Builder::Build(string* err) {
         bool command_finished = FinishCommand(cc, err);
         SetFailureCode(result.exit_status());
         if (!command_finished) {
+          // The edge is no longer active, and Plan::EdgeFinished() may not
+          // have been reached: release its job slot here (a no-op when it
+          // has been released already).
+          if (jobserver_.get())
+            jobserver_->Release(std::move(cc.edge->job_slot_));
           Cleanup();
           status_->BuildFinished();
           if (result.success()) {
